@@ -126,30 +126,32 @@ func (w *World) TargetPackages() []string {
 
 // HarnessResult aggregates all paths of one harness.
 type HarnessResult struct {
-	Harness      string            `json:"harness"`
-	Paths        int               `json:"paths"`
-	Status       map[string]int    `json:"status"` // ok / infeasible / bound / unsupported / unknown / violation / panic / exit / engine
-	Forks        int               `json:"forks"`
-	Steps        int64             `json:"steps"`
-	MaxPathSteps int64             `json:"max_path_steps"`
-	Obligations  int               `json:"obligations"`
-	Discharged   int               `json:"discharged"`
-	Queries      int               `json:"queries"`
-	Sat          int               `json:"sat"`
-	Unsat        int               `json:"unsat"`
-	Unknown      int               `json:"unknown"`
-	SolverS      float64           `json:"solver_s"`
-	WallS        float64           `json:"wall_s"`
-	Covers       map[string]int    `json:"covers"`
-	Violations   []Violation       `json:"violations"`
-	Inconclusive []string          `json:"inconclusive"`
-	Messages     map[string]int    `json:"messages"` // abort messages by text (bound/unsupported/engine)
-	Samples      []PathSample      `json:"samples"`
-	Funcs        []string          `json:"funcs"`
-	Complete     bool              `json:"complete"`
-	PathLimit    bool              `json:"path_limit_hit"`
-	Outputs      map[string]int    `json:"outputs,omitempty"` // verifOutput digests -> path count
-	OutTexts     map[string]string `json:"out_texts,omitempty"`
+	Harness       string              `json:"harness"`
+	Paths         int                 `json:"paths"`
+	Status        map[string]int      `json:"status"` // ok / infeasible / bound / unsupported / unknown / violation / panic / exit / engine
+	Forks         int                 `json:"forks"`
+	Steps         int64               `json:"steps"`
+	MaxPathSteps  int64               `json:"max_path_steps"`
+	Obligations   int                 `json:"obligations"`
+	Discharged    int                 `json:"discharged"`
+	Queries       int                 `json:"queries"`
+	Sat           int                 `json:"sat"`
+	Unsat         int                 `json:"unsat"`
+	Unknown       int                 `json:"unknown"`
+	SolverS       float64             `json:"solver_s"`
+	WallS         float64             `json:"wall_s"`
+	Covers        map[string]int      `json:"covers"`
+	Violations    []Violation         `json:"violations"`
+	Inconclusive  []string            `json:"inconclusive"`
+	Messages      map[string]int      `json:"messages"` // abort messages by text (bound/unsupported/engine)
+	Samples       []PathSample        `json:"samples"`
+	Funcs         []string            `json:"funcs"`
+	Complete      bool                `json:"complete"`
+	PathLimit     bool                `json:"path_limit_hit"`
+	Outputs       map[string]int      `json:"outputs,omitempty"` // verifOutput digests -> path count
+	OutTexts      map[string]string   `json:"out_texts,omitempty"`
+	OutChoices    map[string][]string `json:"out_choices,omitempty"`
+	MaxIterEvents int                 `json:"max_iter_events"`
 }
 
 type PathSample struct {
@@ -170,7 +172,7 @@ type worker struct {
 func (w *World) Explore(fn *ssa.Function, opt Options) *HarnessResult {
 	t0 := time.Now()
 	res := &HarnessResult{Harness: fn.Name(), Status: map[string]int{}, Covers: map[string]int{},
-		Messages: map[string]int{}, Outputs: map[string]int{}, OutTexts: map[string]string{}}
+		Messages: map[string]int{}, Outputs: map[string]int{}, OutTexts: map[string]string{}, OutChoices: map[string][]string{}}
 	funcs := map[*ssa.Function]bool{}
 	var mu sync.Mutex
 	cond := sync.NewCond(&mu)
@@ -243,6 +245,9 @@ func (w *World) Explore(fn *ssa.Function, opt Options) *HarnessResult {
 				if ps.steps > res.MaxPathSteps {
 					res.MaxPathSteps = ps.steps
 				}
+				if ps.iterEvents > res.MaxIterEvents {
+					res.MaxIterEvents = ps.iterEvents
+				}
 				res.Obligations += ps.obligations
 				res.Discharged += ps.discharged
 				for c, n := range ps.covers {
@@ -255,6 +260,7 @@ func (w *World) Explore(fn *ssa.Function, opt Options) *HarnessResult {
 					res.Outputs[o]++
 					if _, ok := res.OutTexts[o]; !ok && len(res.OutTexts) < 64 {
 						res.OutTexts[o] = ps.outTexts[k]
+						res.OutChoices[o] = append([]string(nil), ps.choices...)
 					}
 				}
 				switch ps.status {
